@@ -10,7 +10,7 @@ import os, queue, re, shutil, subprocess
 
 V = "/verif"
 R = "/repo"
-POOL = "/tmp/hfsm2_pool"
+POOL = "/tmp/hfsm2_pool/%d" % os.getpid()       # per process: concurrent tools must not share (or remove) each other's worktrees
 
 
 def sh(cmd, cwd=None, env=None):
@@ -65,4 +65,8 @@ class Pool:
         for i in range(self.n):
             sh("git worktree remove --force %s/w%d" % (POOL, i), cwd=R)
         shutil.rmtree(POOL, ignore_errors=True)
+        try:
+            os.rmdir(os.path.dirname(POOL))
+        except OSError:
+            pass
         sh("git worktree prune", cwd=R)
